@@ -58,6 +58,8 @@ def rustc(args, cwd, timeout=300):
             d = json.loads(line)
         except json.JSONDecodeError:
             continue
+        if d.get("message", "").startswith("aborting due to"):
+            continue
         if d.get("level") == "error" or (d.get("level", "").startswith("error")):
             spans = [s for s in d.get("spans", []) if s.get("is_primary")] or d.get("spans", [])
             sp = spans[0] if spans else {}
